@@ -1,48 +1,52 @@
 #!/bin/bash
 # seedeval.sh <sid> <n> [ids...]: confirm an independent seeded change (/tmp/<sid>/out/<n>) in a scratch
-# worktree (applies, builds, demo passes without / fails with it, baseline suite unchanged), store it under
-# /verif/seeded/<sid>-<n>/, then apply it to /repo, run the checks, and revert.
+# worktree: it applies; with the demonstration added the suite has no new failure without the change and at
+# least one new failure with it; without the demonstration the existing suite is unchanged by the change.
+# Then store it under /verif/seeded/<sid>-<n>/, apply it to /repo, run the checks, and revert.
 set -u
 SID="$1"; N="$2"; shift 2
-SRC="/tmp/$SID/out/$N"
-[ -f "$SRC/patch.diff" ] || { echo "no patch at $SRC"; exit 2; }
+SRC="/tmp/$SID/out/$N"; [ -f "$SRC/patch.diff" ] || SRC="/verif/seeded/$SID-$N"
+[ -f "$SRC/patch.diff" ] || { echo "no patch for $SID-$N"; exit 2; }
 PID=$(python3 -c "import json;print(json.load(open('$SRC/meta.json'))['property'])" 2>/dev/null || echo "C${SID#s}")
 IDS="${@:-$PID}"
 W=/tmp/ev_$SID$N; T=/tmp/ev_target
-rm -rf "$W"; git -C /repo worktree add --detach "$W" HEAD >/dev/null 2>&1 || { echo "worktree failed"; exit 2; }
+D=/verif/seeded/$SID-$N; mkdir -p "$D"
+[ "$SRC" != "$D" ] && { cp "$SRC/patch.diff" "$SRC/meta.json" "$D/" 2>/dev/null; cp "$SRC/demo.diff" "$D/" 2>/dev/null; }
+rm -rf "$W"; git -C /repo worktree prune; git -C /repo worktree add --detach "$W" HEAD >/dev/null 2>&1 || { echo "worktree failed"; exit 2; }
 cd "$W"
-DEMO_CMD=$(python3 -c "import json;print(json.load(open('$SRC/meta.json')).get('demo_command',''))" | sed "s|/tmp/$SID/repo|$W|g; s|/tmp/$SID/target|$T|g")
+export CARGO_TARGET_DIR=$T CARGO_NET_OFFLINE=true
+DEMO_CMD=$(python3 -c "import json;print(json.load(open('$D/meta.json')).get('demo_command',''))" 2>/dev/null)
+SPECIAL=""
+case "$DEMO_CMD" in *--features*) SPECIAL=$(echo "$DEMO_CMD" | grep -oE "cargo (\+nightly )?(test|nextest run)[^&;]*--features[^&;]*" | head -1) ;; esac
+suite() { # prints sorted failing test names (or exit code for a special command)
+  if [ -n "$SPECIAL" ]; then case "$SPECIAL" in *--offline*) ;; *) SPECIAL="$SPECIAL --offline";; esac; (eval "$SPECIAL" >/tmp/ev_run.log 2>&1; echo "exit=$?");
+  else cargo nextest run --workspace --no-fail-fast --offline >/tmp/ev_run.log 2>&1; grep -E "^\s+(FAIL|SIGABRT|SIGSEGV|TIMEOUT|ABORT|LEAK) \[" /tmp/ev_run.log | awk '{print $NF}' | sort -u | tr '\n' ','; grep -qE "error: could not compile|error\[E" /tmp/ev_run.log && echo "COMPILE-ERROR"; fi; }
 RES="applies=no"
-if git apply --check "$SRC/patch.diff" 2>/dev/null; then
+if git apply --check "$D/patch.diff" 2>/dev/null; then
   RES="applies=yes"
-  [ -f "$SRC/demo.diff" ] && git apply "$SRC/demo.diff" 2>/dev/null
-  export CARGO_TARGET_DIR=$T CARGO_NET_OFFLINE=true
-  if [ -n "$DEMO_CMD" ]; then
-    (eval "$DEMO_CMD") >/tmp/ev_demo_without.log 2>&1; A=$?
-    git apply "$SRC/patch.diff"
-    (eval "$DEMO_CMD") >/tmp/ev_demo_with.log 2>&1; B=$?
-    RES="$RES demo_without=$A demo_with=$B"
+  if [ -f "$D/demo.diff" ] && git apply "$D/demo.diff" 2>/dev/null; then
+    A=$(suite); git apply "$D/patch.diff"; B=$(suite)
+    RES="$RES demo_without=[$A] demo_with=[$B]"
+    git apply -R "$D/demo.diff" 2>/dev/null
+    # remove files the demo created
+    git status --porcelain | grep '^??' | awk '{print $2}' | xargs -r rm -rf
   else
-    git apply "$SRC/patch.diff"; RES="$RES demo=none"
+    git apply "$D/patch.diff"; RES="$RES demo=not-applicable"
   fi
-  # baseline suite with the change (demo removed so that only existing tests count)
-  [ -f "$SRC/demo.diff" ] && git apply -R "$SRC/demo.diff" 2>/dev/null
-  cargo nextest run --workspace --no-fail-fast --offline >/tmp/ev_suite.log 2>&1
-  SUM=$(grep -E "Summary" /tmp/ev_suite.log | tail -1 | sed 's/^ *//')
-  FAILS=$(grep -E "^\s+FAIL \[" /tmp/ev_suite.log | awk '{print $NF}' | sort -u | tr '\n' ',')
-  RES="$RES suite=[$SUM] fails=[$FAILS]"
+  SPECIAL_SAVE="$SPECIAL"; SPECIAL=""; C=$(suite); SPECIAL="$SPECIAL_SAVE"
+  RES="$RES suite_with_patch_only=[$C]"
 fi
 cd /verif; git -C /repo worktree remove --force "$W" >/dev/null 2>&1
-D=/verif/seeded/$SID-$N; mkdir -p "$D"; cp "$SRC/patch.diff" "$SRC/meta.json" "$D/" 2>/dev/null; cp "$SRC/demo.diff" "$D/" 2>/dev/null
 echo "$SID-$N confirm: $RES" | tee "$D/confirm.txt"
 # run the checks against it
-if git -C /repo diff --quiet && git -C /repo apply --check "$SRC/patch.diff" 2>/dev/null; then
-  git -C /repo apply "$SRC/patch.diff"
+unset CARGO_TARGET_DIR
+if git -C /repo diff --quiet && git -C /repo apply --check "$D/patch.diff" 2>/dev/null; then
+  git -C /repo apply "$D/patch.diff"
   for id in $IDS; do
     out=$(./check $id quick 2>&1 | grep -E "^(signature|VIOLATION|OK|INCONCLUSIVE|error)" | head -3 | tr '\n' ' ')
     echo "$SID-$N check $id: $out" | tee -a "$D/confirm.txt"
   done
-  git -C /repo checkout -- . ; git -C /repo clean -fdq -- . 2>/dev/null
+  git -C /repo checkout -- . ; git -C /repo status --porcelain | grep '^??' | awk '{print $2}' | (cd /repo && xargs -r rm -rf)
 else
   echo "$SID-$N: /repo dirty or patch does not apply" | tee -a "$D/confirm.txt"
 fi
